@@ -1,5 +1,6 @@
 #!/bin/bash
 # reseed2.sh [pattern]: like reseed.sh, but in three parallel lanes that leave /repo alone (seedtest2.sh).
+# RESEED_SKIP=<file with names> leaves those out (to resume an interrupted run).
 # Prints one line per seed to /tmp/reseed2-<lane>.log: <name> prop=<P> applies=.. suite=.. exit=<code of the own-property check>
 cd /verif/seeded || exit 1
 names=($(ls -d ${1:-*}/ | tr -d /))
@@ -8,6 +9,7 @@ for lane in 1 2 3; do
     i=0
     for n in "${names[@]}"; do
       i=$((i+1)); [ $((i % 3)) -eq $((lane % 3)) ] || continue
+      if [ -n "${RESEED_SKIP:-}" ] && grep -qx "$n" "$RESEED_SKIP"; then continue; fi
       P=$(python3 -c "import json;print(json.load(open('/verif/seeded/$n/meta.json'))['property'])" 2>/dev/null) || continue
       out=$(/verif/seedtest2.sh $lane /verif/seeded/$n $n $P $P 2>&1)
       code=$(echo "$out" | grep -o "check $P -> exit [0-9]*" | awk '{print $NF}')
